@@ -113,6 +113,17 @@ def focused_sets(rng):
     return sets
 
 
+def coqchk(chk, mods):
+    """thorough: re-check the compiled property files and everything they depend on with the independent checker"""
+    rc, out, err = vlib.sh(['coqchk', '-silent', '-o', '-Q', '.', 'MirV'] + mods, cwd=vlib.COQDIR, timeout=2400)
+    flat = ' '.join((out + err).split())
+    ok = rc == 0 and '* Axioms: <none>' in flat
+    chk.cov['trusted_base'].append('coqchk -o on %s: %s' % (' '.join(mods), 'no axioms, no assumed positivity/guard/type-in-type' if ok
+                                                             else 'FAILED rc=%d %s' % (rc, flat[-300:])))
+    chk.log('coqchk: %s' % ('ok, Axioms: <none>' if ok else 'FAILED'))
+    return ok
+
+
 def run(chk):
     quick = chk.tier == 'quick'
     objs, stats = tr_c18_statics.generate()
@@ -129,7 +140,7 @@ def run(chk):
         'harness/c18_threads.c, harness/c17_api.h']
     rng = chk.rng('threads')
     sets = [(name, th, reps) for name, th, reps in focused_sets(rng)]
-    nrand = 14 if quick else 300
+    nrand = 14 if quick else 1000
     for _ in range(nrand):
         nt = rng.choice([2, 3, 4, 6, 8])
         th = [G.Scen(rng, [0]).lines for _ in range(nt)]
@@ -185,6 +196,9 @@ def run(chk):
         chk.finding(sig, dict(script=lines, detail=detail,
                               how='./check C18 --replay <this file> (feeds the script to harness/c18_threads.c built with -fsanitize=thread)'),
                     what)
+    if not quick and r1['ok'] and r2['ok'] and not coqchk(chk, ['MirV.Properties_C18', 'MirV.Properties_C18_Statics']):
+        r1['ok'] = False
+        r1['log'] += '\ncoqchk failed'
     broken = [r for r in (r1, r2) if not r['ok']]
     if broken and not found:
         chk.proof_broken(broken[0], searched='%d thread sets under ThreadSanitizer without a report; objects flagged by the translator: %s' % (
